@@ -60,7 +60,7 @@ TwoSlot == {
     "select", "case-range", "input2", "field", "lset", "name", "poke", "locate", "color", "width",
     "view-print", "defint", "member-assign", "elem-assign", "elem-member-assign", "elem-print",
     "elem-member-print", "two-subscripts", "swap-assign", "nested", "sub-decl", "function-decl", "declare",
-    "type-decl", "type-two" }
+    "type-decl", "type-two", "field-two" }
 
 VARIABLES t, a, b
 vars == <<t, a, b>>
